@@ -64,7 +64,15 @@ var c09bMods = []string{"ps", "pe-coff", "msi", "cat", "jar", "cab", "deb", "rpm
 func c09Remote(r *core.Run) {
 	t := r.T
 	pki := world.PKI()
-	c := genSignCase(t, fmt.Sprintf("%dr", r.No), c09bMods)
+	// overlap focus: a server that answers 503 before it has consumed the
+	// upload keeps draining the rest, so the abandoned attempt's producer
+	// goroutine keeps running while the next attempt transforms the same file
+	overlap := t.Chance(1, 3, "focus-overlapping-producers")
+	mods := c09bMods
+	if overlap {
+		mods = []string{"msi", "xap", "jar", "msi", "bigjar"}
+	}
+	c := genSignCase(t, fmt.Sprintf("%dr", r.No), mods)
 	if c.Mod == "bigjar" {
 		c.Mod, c.SigType = "jar", "jar"
 		c.File = fmt.Sprintf("big%d.jar", r.No)
@@ -76,6 +84,12 @@ func c09Remote(r *core.Run) {
 	failBias := core.Pick(t, "attempt-fail-bias", 4, 0, 7, 9)
 	legacyDir := t.Chance(1, 4, "legacy-directory")
 	advertise := core.Pick(t, "advertised-encodings", "default", "none", "gzip", "default")
+	if overlap && t.Chance(2, 3, "overlap-uncompressed") {
+		// without request compression the transport reads the transform's
+		// pipe itself and keeps doing so after an early 503, for as long as
+		// the server drains the upload
+		advertise = "none"
+	}
 	samePath := t.Chance(1, 3, "output-in-place")
 	var attempts []c09Attempt
 	var dialFaults int
@@ -116,7 +130,15 @@ func c09Remote(r *core.Run) {
 		defer srv.Close()
 		inner := srv.Handler()
 
+		signSeen := 0
 		pick := func(path string) string {
+			if overlap && path == "/sign" {
+				signSeen++
+				if signSeen == 1 {
+					return core.Pick(t, "overlap-fault", "503-mid", "503-early", "503-mid")
+				}
+				return "ok"
+			}
 			if path == "/directory" || t.Choose(10, "attempt-ok") >= failBias {
 				return "ok"
 			}
